@@ -281,7 +281,13 @@ def run(ctx: Ctx) -> None:
             replay = {"entity": kind, "maps": pr["idx"], "style": style}
             ctx.evaluated(f"{kind}:{pr['idx']}:{style}")
             try:
-                ent = transform_entity(build[kind](), pr["ts"], style)
+                fresh = build[kind]()
+                used_before = rng.random() < 0.4
+                if used_before:
+                    # the entity was looked at (assembled in a mesh of its own) before it is transformed: nothing computed
+                    # for that first use may stick to it
+                    snapshot(kind, fresh)
+                ent = transform_entity(fresh, pr["ts"], style)
                 got = snapshot(kind, ent)
             except Exception as err:  # pylint: disable=broad-except
                 ctx.violation(f"{sig}:raises:{type(err).__name__}", f"transforming {kind} by {pr['idx']} ({style}) raised {err}", replay)
@@ -294,6 +300,7 @@ def run(ctx: Ctx) -> None:
             cp = orig.copy()
             s_cp = snapshot(kind, cp)
             transform_entity(orig, chosen[0]["ts"], "methods")
+            snapshot(kind, orig)            # (the transformed original is used first, the copy afterwards)
             s_cp_after = snapshot(kind, cp)
             ident: List[dict] = []
             compare(ctx, f"copy:{kind}:equivalent", f"copy of {kind}", s_cp, base, ident, 1.0, size, {"entity": kind})
@@ -308,9 +315,11 @@ def run(ctx: Ctx) -> None:
         for times in (1, 2):
             try:
                 ent = build[kind]()
+                if times == 2:
+                    snapshot(kind, ent)     # used once (assembled) before it is inverted
                 for _ in range(times):
                     ent.invert()
-                got = snapshot(kind, ent)
+                    got = snapshot(kind, ent)
             except Exception as err:  # pylint: disable=broad-except
                 ctx.violation(f"invert:{kind}:raises:{type(err).__name__}", f"inverting {kind} raised {err}", {"entity": kind})
                 continue
